@@ -276,6 +276,7 @@ def run(tier, seed):
     # ---- generated configurations --------------------------------------------------------------
     n = 1500 if tier == "quick" else 18000
     rejected = []
+    ldis = []
     sample_done = False
     e2e_cases = []
     for i in range(n):
@@ -298,6 +299,19 @@ def run(tier, seed):
         if c1 is not None and i % 6 == 0 and len(g["files"]) == 1:
             ck.same_scripts("generated", {"Text": text, "Defines": g["defines"]}, r1["Printed"],
                             {"files": g["files"], "main": g["main"], "defines": g["defines"]})
+        if c1 is not None and i % 3 == 0:
+            # K-C10l: every printed clause line that a template clause regexp matches is the rendering of its own
+            # fields (keywords and fields separated by single blanks): the lines theorem printed_clause_line_parses is about
+            rl = impl.call("readLines", Text=r1["Printed"].encode("utf-8").hex())
+            for hl in rl.get("lines") or []:
+                a = model.ask("C10 tpl x" + hl)
+                for hit in (a or "").split(" "):
+                    if hit.endswith(":ok"):
+                        rep.count("clause line = template rendering: " + hit[:-3])
+                    elif hit.endswith(":notimage"):
+                        ldis.append({"line": bytes.fromhex(hl).decode("utf-8", "replace"), "template": hit[:-9], "config": g["files"]})
+                    elif hit not in ("-", ""):
+                        ldis.append({"line": bytes.fromhex(hl).decode("utf-8", "replace"), "model": a})
         if c1 is not None:
             ck.model_vs_real("generated", g["clauses"], c1, g["files"])
             pm = model.ask("C10 printold " + cfggen.clauses_tok(g["clauses"]))
@@ -417,6 +431,8 @@ def run(tier, seed):
                    json.dumps(ck.kdis[:2], default=str)[:1800])
     rep.obligation("K-C10-param: substituted value = lookupP (pVars defines defaults) (theorem defines_precedence)", "K", not pdis,
                    json.dumps(pdis[:2], default=str)[:1200])
+    rep.obligation("K-C10l: printed clause lines matched by a template clause regexp are renderings of their template (the lines of theorem printed_clause_line_parses)", "K", not ldis,
+                   json.dumps(ldis[:2], default=str)[:1200])
     rep.obligation("K-C10t: escapeNl and the reader's joining of continuation lines = model (Escape.escapeNl, Reader.gather) on generated texts", "K", not tdis,
                    json.dumps(tdis[:2], default=str)[:1200])
     rep.obligation("O-C10t: a clause text printed through escapeNl is read back as the same clause, and the next clause is still read (theorem escaped_text_reads_back)", "O", not tfail,
@@ -435,8 +451,8 @@ def run(tier, seed):
     if not (set(kinds) - known_kinds) and not efail and not tfail:
         if not ok:
             rep.violation("proof obligations of C10 no longer check", {"broken_theorems": info["failed"], "lean_output": info["output"][-3000:]}, nofail=True)
-        elif ck.kdis or pdis or tdis:
-            rep.violation("correspondence K-C10 disagrees", {"broken": "K-C10", "disagreements": (ck.kdis + pdis + tdis)[:5]}, nofail=True)
+        elif ck.kdis or pdis or tdis or ldis:
+            rep.violation("correspondence K-C10 disagrees", {"broken": "K-C10", "disagreements": (ck.kdis + pdis + tdis + ldis)[:5]}, nofail=True)
         elif rejected:
             rep.violation("generated configurations of the documented syntax are rejected", {"broken": "K-C10-gen", "rejected": rejected[:5]}, nofail=True)
     ck.close()
